@@ -114,7 +114,7 @@ class WertheimThiele(Sub):
 
     def strategy(self, tier):
         return st.fixed_dictionaries({'eta': specs.fl(0.02, 0.47, 4), 'rmax': st.sampled_from([10.24, 20.48]), 'dr0': st.sampled_from([0.04, 0.02]),
-                                      'flag': st.booleans(), 'via': st.sampled_from(['fresh', 'swept'])})
+                                      'flag': st.booleans(), 'via': st.sampled_from(['fresh', 'swept', 'swept-deferred'])})
 
     def check(self, spec):
         P = target()
@@ -123,7 +123,21 @@ class WertheimThiele(Sub):
         eta, rmax, dr0, flag = spec['eta'], spec['rmax'], spec['dr0'], spec['flag']
         rho = 6.0 * eta / math.pi
         fam = []
-        swept = hs_system(flag) if spec.get('via') == 'swept' else None
+        solved = []
+        swept = hs_system(flag) if spec.get('via') in ('swept', 'swept-deferred') else None
+
+        def observe(pr, dr):
+            r = pr.sys.domain.r
+            g = np.asarray(S.quiet(P.calculate.pair_correlation, pr)['A', 'A'], dtype=float)
+            i1 = int(np.flatnonzero(r > 1.0 + 1e-9)[0])
+            Sk = np.asarray(S.quiet(P.calculate.structure_factor, pr)['A', 'A'], dtype=float)[:64]
+            k = np.array(pr.sys.domain.k[:64])
+            cc = pr.directCorr.get_copy() if hasattr(pr.directCorr, 'get_copy') else None
+            S.quiet(pr.sys.domain.MatrixArray_to_real, cc)
+            c = np.asarray(cc['A', 'A'], dtype=float)
+            idx = [int(round(x / dr)) - 1 for x in (0.2, 0.4, 0.8, 1.52)]
+            return ({'gc': 2 * g[i1] - g[i1 + 1], 'S': Sk, 'k': k, 'c': c[idx], 'r': r[idx], 'inside': float(np.max(np.abs(g[r <= 1.0])))})
+
         for lev in range(3):
             L = int(round(rmax / dr0)) * 2 ** lev
             dr = rmax / L
@@ -134,16 +148,17 @@ class WertheimThiele(Sub):
                     out.skipped = 'not-converged'
                     return out
                 guess = np.array(res.x)
-            r = pr.sys.domain.r
-            g = np.asarray(S.quiet(P.calculate.pair_correlation, pr)['A', 'A'], dtype=float)
-            i1 = int(np.flatnonzero(r > 1.0 + 1e-9)[0])
-            Sk = np.asarray(S.quiet(P.calculate.structure_factor, pr)['A', 'A'], dtype=float)[:64]
-            k = np.array(pr.sys.domain.k[:64])
-            cc = pr.directCorr.get_copy() if hasattr(pr.directCorr, 'get_copy') else None
-            S.quiet(pr.sys.domain.MatrixArray_to_real, cc)
-            c = np.asarray(cc['A', 'A'], dtype=float)
-            idx = [int(round(x / dr)) - 1 for x in (0.2, 0.4, 0.8, 1.52)]
-            fam.append({'gc': 2 * g[i1] - g[i1 + 1], 'S': Sk, 'k': k, 'c': c[idx], 'r': r[idx], 'inside': float(np.max(np.abs(g[r <= 1.0])))})
+            solved.append((pr, dr))
+            if spec.get('via') != 'swept-deferred':
+                fam.append(observe(pr, dr))
+        if spec.get('via') == 'swept-deferred':
+            # a sweep that keeps the solved objects and looks at them after the loop, when the System has long moved on to other
+            # densities and another domain: a solved object is a snapshot
+            # (the sweep goes on: another density, another diameter and a re-spaced domain before the stored objects are looked at)
+            swept.density['A'] = 0.37 * rho
+            swept.diameter['A'] = 1.3
+            swept.domain.dr = 1.7 * swept.domain.dr
+            fam = [observe(pr_, dr_) for pr_, dr_ in solved]
         out.nontrivial = eta >= 0.05
         out.label('system=' + spec.get('via', 'fresh'), 'flag' if flag else 'no-flag', 'eta<0.2' if eta < 0.2 else ('eta<0.35' if eta < 0.35 else 'eta>=0.35'))
         detail = 'eta=%.4g r_max=%g dr0=%g flag=%s' % (eta, rmax, dr0, flag)
